@@ -52,6 +52,7 @@ func cmdVerify(args []string) int {
 	dump := fs.String("dump", "", "dump queries into this directory")
 	jobs := fs.Int("j", 0, "parallel solver jobs (default: 16, fewer when the machine is loaded)")
 	jsonOut := fs.String("json", "", "write per-obligation results to this file")
+	cexFlag := fs.Bool("cex", false, "replay the solver's counterexample of every refuted (sat) obligation on the real code")
 	fs.Parse(args)
 	if *jobs <= 0 {
 		*jobs = 16
@@ -216,6 +217,14 @@ func cmdVerify(args []string) int {
 					b = fmt.Sprintf(" bounded(%d)", o.Bounded)
 				}
 				fmt.Printf("    %-8s %s [%s %.2fs]%s %s  -- %s\n", o.Res.Status, o.Name, o.Res.Solver, o.Res.Time, b, o.Pos, o.Desc)
+				if *cexFlag && o.Res.Status == "sat" && !o.Smoke {
+					cr := replayCounterexample(o, *repo)
+					fmt.Printf("      replay: confirmed=%v %s%s\n      input: %s\n", cr.Confirmed, cr.Verdict, cr.Why, cr.Input)
+					if os.Getenv("RVC_CEXSRC") != "" {
+						fmt.Println(cr.TestSrc)
+						fmt.Println(cr.Log)
+					}
+				}
 				if o.Res.Status == "error" {
 					fmt.Println("      ", strings.SplitN(o.Res.Output, "\n", 3)[0])
 				}
